@@ -373,4 +373,4 @@ def _m_mixed_strand(d):
 # (a second defect seen while building - GeneInterval without gene_type: merged accessors raised AttributeError - was
 # repaired in /repo as "fixed: property=C19 f6cc941"; the 'gene-notype' leg of the world now guards that repair, and a
 # recurrence would be reported with sig 'merged-no-gene-type-raises-AttributeError'.)
-MATCHERS = {"c20_merged_mixed_strand": _m_mixed_strand}
+MATCHERS = {}  # (mixed-strand merge was repaired by a fix: commit; a recurrence is a VIOLATION)
